@@ -69,6 +69,26 @@ func decDigitsOf(v *big.Rat) (string, int64) {
 	return s, e
 }
 
+// bigFloatArgs fills in the description of a big.Float of precision fprec: zero, infinity or an odd
+// mantissa times a power of two.
+func (g *G) bigFloatArgs(s M, fprec int) {
+	s["fprec"], s["fmode"] = fprec, g.R.Intn(6)
+	switch g.R.Intn(10) {
+	case 0:
+		s["fk"], s["fneg"], s["fm"], s["fe2"] = "zero", g.Bool(), "0", 0
+	case 1:
+		s["fk"], s["fneg"], s["fm"], s["fe2"] = "inf", g.Bool(), "0", 0
+	default:
+		m := new(big.Int).Rand(g.R, new(big.Int).Lsh(big.NewInt(1), uint(fprec)))
+		m.SetBit(m, 0, 1) // odd, so that it is the minimal mantissa
+		e2 := g.R.Intn(401) - 200
+		if g.R.Intn(5) == 0 {
+			e2 = g.R.Intn(20001) - 10000
+		}
+		s["fk"], s["fneg"], s["fm"], s["fe2"] = "fin", g.Bool(), m.String(), e2
+	}
+}
+
 // Float generates the C15 programs.
 func Float(g *G, n int) []Program {
 	var out []Program
@@ -83,21 +103,8 @@ func Float(g *G, n int) []Program {
 			if g.Thor && g.R.Intn(5) == 0 {
 				fprec = 300 + g.R.Intn(1700)
 			}
-			s := M{"op": "SetFloat", "z": "r2", "fprec": fprec, "fmode": g.R.Intn(6)}
-			switch g.R.Intn(10) {
-			case 0:
-				s["fk"], s["fneg"], s["fm"], s["fe2"] = "zero", g.Bool(), "0", 0
-			case 1:
-				s["fk"], s["fneg"], s["fm"], s["fe2"] = "inf", g.Bool(), "0", 0
-			default:
-				m := new(big.Int).Rand(g.R, new(big.Int).Lsh(big.NewInt(1), uint(fprec)))
-				m.SetBit(m, 0, 1) // odd, so that it is the minimal mantissa
-				e2 := g.R.Intn(401) - 200
-				if g.R.Intn(5) == 0 {
-					e2 = g.R.Intn(20001) - 10000
-				}
-				s["fk"], s["fneg"], s["fm"], s["fe2"] = "fin", g.Bool(), m.String(), e2
-			}
+			s := M{"op": "SetFloat", "z": "r2"}
+			g.bigFloatArgs(s, fprec)
 			g.Receiver("r2", g.Pick(0, 0, 1, 5, 17, 34, 100, 700), g.Mode())
 			g.Emit(s)
 		case k < 75: // Float64 / Float32 of Decimals near representable values, midpoints, binade and decade crossings
